@@ -790,6 +790,16 @@ def forall_intro(vc, name, lo, hi, body, steps, var='i'):
     return u
 
 
+class _NaN:
+    """numpy.nan as a RETURN VALUE of the analysed code: not a real number; no arithmetic is modelled on it"""
+
+    def __repr__(self):
+        return 'nan'
+
+
+NAN = _NaN()
+
+
 def np_var(a, axis=None, ddof=0):
     """numpy.var (assumed contract, sanity-tested): mean of the squared deviations from the mean along the axis with divisor
     n - ddof; built from the same finite sums as np.sum so that hooks can tie them to definitional sums"""
@@ -870,6 +880,11 @@ class GelmanRubin(Contract):
     fin = 6
     fin_range = 8
 
+    def __init__(self, fin_scale='1', label=None):
+        """the proof-mode obligations do not depend on fin_scale; it only selects the concrete input of the finitised run
+        (vacuity probe, counter-models): a second instance on a SMALL scale makes scale-dependent early exits reachable there"""
+        self.fin_scale, self.label = fin_scale, label
+
     def setup(self, vc):
         C, N = z3.Ints('C N')
         vc.fin_bounds.extend([C, N])
@@ -880,18 +895,20 @@ class GelmanRubin(Contract):
         return s, (chains,), {}
 
     def env(self, vc):
-        return dict(np=np_module(var=np_var))
+        return dict(np=np_module(var=np_var, nan=NAN))
 
     @staticmethod
     def fin_x(c, t):
-        """the concrete chains used in finitised mode (counter-model search and vacuity probe at a fixed, distinguishable input:
-        nonlinear real arithmetic over uninterpreted sums is out of the solver's reach otherwise); native replays use the same"""
+        """the concrete chains used in finitised mode, times the instance's scale (counter-model search and vacuity probe at a
+        fixed, distinguishable input: nonlinear real arithmetic over uninterpreted sums is out of the solver's reach otherwise);
+        native replays use the same chains and scale"""
         return (c + 1) * ((t * t) % 7) + c
 
     def requires(self, s):
         vc = cur()
         if vc.fin is not None:
-            vc.assume(s.C == 2, s.N == 5, *[X(c, t) == self.fin_x(c, t) for c in range(2) for t in range(5)])
+            a = z3.RealVal(self.fin_scale)     # the fixed chains times this instance's scale (unit scale / small scale 1e-5)
+            vc.assume(s.C == 2, s.N == 5, *[X(c, t) == a * self.fin_x(c, t) for c in range(2) for t in range(5)])
         return [s.R['C'], ('at least two draws per half chain (sample variance defined)', s.R['N']), s.R['D_SM'].q, s.R['D_SV'].q, s.R['D_SG'], s.R['D_SB'], s.R['D_SS'],
                 ('within-sequence variance is positive (chains not all constant)', s.R['W'])]
 
@@ -997,8 +1014,13 @@ class GelmanRubin(Contract):
                                        lambda vc, r0: mean_inst(vc, r0) + [H[3]], after=nonneg),
                 ('np.sum', 5): vec_sum(5, 'within-sequence variance', SS, R_['D_SS'], sp.s2, lambda vc, r0: [H[2].inst(vc, r0)])}
 
+    def witness(self, vc, model, ob):
+        return dict(fn='diag', gen='formula', C=2, N=5, scale=float(z3.RealVal(self.fin_scale).as_fraction()))
+
     def ensures(self, s, result):
         sp = s.spec
+        if not isinstance(result, (SNum, int, float)):
+            return [('R-hat is the textbook value - a number, never nan - whenever the within-sequence variance is positive (got %r)' % (result,), z3.BoolVal(False))]
         r = T(result)
         return [('R-hat = sqrt(((n-1)/n W + B/n) / W) on the split chains (the non-negative root)', z3.And(r >= 0, r * r == sp.rhat2())),
                 ('the chains are not modified', z3.BoolVal(s.chains.cell.elt is s.cell_elt))]
@@ -1586,7 +1608,7 @@ class RhatCas(CasContract):
 
 CONTRACTS = [SampleInit('plain'), SampleInit('weighted'), SamplesArray(), NSamples(), Dim(), Discrepancies(True), Discrepancies(False),
              SampleMeans(True), SampleMeans(False), SampleCIs(True), SampleCIs(False), SampleQuantiles(True), SampleQuantiles(False), SumExt(),
-             BolfiInit(), BolfireInit(), GelmanRubin(), RhatCas(), MonotoneCum(), LemmaAffineSum(), LemmaAffineSS(), LemmaRhatAffine(), LemmaRhatPermutation(),
+             BolfiInit(), BolfireInit(), GelmanRubin(), GelmanRubin('1/100000', 'finitised-at-scale-1e-5'), RhatCas(), MonotoneCum(), LemmaAffineSum(), LemmaAffineSS(), LemmaRhatAffine(), LemmaRhatPermutation(),
              NumpyToPython(), SampleObjectToDict('given'), SampleObjectToDict('default')]
 
 TRUSTED_BASE = ['pyvc engine: proxies, loop cutting, numpy spec table (np.sum / np.mean / np.average = mathematical finite sum by prefix recursion; slices, '
@@ -1686,6 +1708,8 @@ def replay_refuted(cname, rf):
         if wit.get('point') and wit.get('case'):
             C, N = wit['case']['C'], wit['case']['N']
             cands.append(dict(fn='diag', C=C, N=N, values=[[float(wit['point'].get('x_%d_%d' % (c, t), 0.0)) for t in range(N)] for c in range(C)]))
+        if wit.get('gen') == 'formula':
+            cands.append(dict(wit))
         cands.append(dict(fn='diag', gen='formula', C=2, N=5))
         b._preload()
         for inp in cands:
